@@ -56,10 +56,21 @@ def full(spec):
     return (spec[0], spec[1], [full(k) for k in spec[2]])
 
 
-def gen_name(rng, used, plain=0.5):
+# words the DDS grammar itself uses (any letter case): as NAMES of variables, containers, dimensions, datasets
+KEYWORDS = ["Dataset", "Structure", "Sequence", "Grid", "Array", "Maps", "Array:", "Maps:", "Int32", "Byte", "Float64",
+            "String", "Url", "Int", "UInt", "Attributes", "grid", "STRUCTURE", "sequence", "dataset", "array", "MAPS"]
+
+
+def gen_name(rng, used, plain=0.5, anc=()):
+    """`anc`: names of the enclosing containers (a child named like its parent / grandparent is legal)"""
     for _ in range(50):
         n = rng.randint(1, 6)
-        if rng.random() < plain:
+        r = rng.random()
+        if anc and r < 0.06:
+            s = rng.choice(anc)
+        elif r < 0.12:
+            s = rng.choice(KEYWORDS)
+        elif rng.random() < plain:
             s = rng.choice("abcxyzABCXYZ_") + "".join(rng.choice(IDENT) for _ in range(n - 1))
         else:
             s = "".join(rng.choice(IDENT + QUOTE_NEEDED + QUOTE_NEEDED) for _ in range(n))
@@ -72,7 +83,12 @@ def gen_name(rng, used, plain=0.5):
     return s
 
 
+DIM_KEYWORDS = ["Maps", "Array", "Grid", "Int32", "maps", "Dataset", "Structure"]
+
+
 def gen_dim(rng):
+    if rng.random() < 0.04:
+        return rng.choice(DIM_KEYWORDS)
     n = rng.randint(1, 4)
     return "".join(rng.choice(IDENT + DIM_EXTRA) for _ in range(n))
 
@@ -87,10 +103,10 @@ def pick_nodata(rng, nd):
     return nd == "all" or (nd == "mixed" and rng.random() < 0.5)
 
 
-def gen_base(rng, used, depth_seq, mode, nd):
+def gen_base(rng, used, depth_seq, mode, nd, anc=()):
     """mode: 'domain' (the property's trees: dims absent or one per declared extent; sequence members of rank
     0..3), 'odd' (dims/shape length mismatch)"""
-    name = gen_name(rng, used)
+    name = gen_name(rng, used, anc=anc)
     ch = rng.choice(list(SPEC_TYPES))
     rank = rng.choice([0, 0, 1, 1, 2, 3])
     nodata = pick_nodata(rng, nd)
@@ -110,51 +126,157 @@ def gen_base(rng, used, depth_seq, mode, nd):
     return ("b", name, ch, shape, dims, nodata)
 
 
-def gen_grid(rng, used, depth_seq, mode, nd):
-    name = gen_name(rng, used)
-    inner = set()
-    rank = rng.randint(1, 3)
+def plan_grid(rng, fresh, inner):
+    """the shape of a Grid: (dimension names of the array ([] = anonymous), extents, [(map name, extent)] in the
+    order the Grid holds / the text declares them).  `fresh()` draws a name that is not in `inner` yet (used for
+    maps that are no dimension of the array); map names are added to `inner`."""
+    rank = rng.choice([0, 1, 1, 2, 2, 2, 3, 3, 4])
     ext = tuple(gen_extent(rng) for _ in range(rank))
+    r = rng.random()
+    style = "anonymous" if r < 0.15 else "repeated" if r < 0.30 and rank >= 2 else "named"
     dnames = []
-    while len(dnames) < rank:
-        d = gen_dim(rng)          # dimension names are printed verbatim (not quoted): keep them parseable
-        if d not in inner:
-            inner.add(d)
-            dnames.append(d)
+    if style != "anonymous":
+        while len(dnames) < rank:
+            d = gen_dim(rng)          # dimension names are printed verbatim (not quoted): keep them parseable
+            if d not in dnames:
+                dnames.append(d)
+        if style == "repeated":
+            i, j = rng.sample(range(rank), 2)
+            dnames[j] = dnames[i]
+    # candidate maps: one per distinct axis name (fresh names for anonymous axes), with that axis' extent
+    axes = []
+    for i in range(rank):
+        dn = dnames[i] if dnames else gen_dim(rng)
+        if dn not in [a for a, _ in axes]:
+            axes.append((dn, ext[i]))
+    r = rng.random()
+    if r < 0.25:
+        pass
+    elif r < 0.40:
+        axes.reverse()
+    else:
+        rng.shuffle(axes)
+    if axes and rng.random() < 0.15:
+        del axes[rng.randrange(len(axes))]          # a dimension without a map
+    if rng.random() < 0.10:
+        axes = [(a + rng.choice("_xZ9"), e) for a, e in axes]     # maps named differently from the dimensions
+    inner.update(a for a, _ in axes)
+    if rng.random() < 0.30:                         # maps that are not a dimension of the array, anywhere
+        for _ in range(rng.randint(1, 2)):
+            pos = 0 if rng.random() < 0.5 else rng.randint(0, len(axes))
+            axes.insert(pos, (fresh(), gen_extent(rng)))
+    return dnames, ext, axes
+
+
+def gen_grid(rng, used, depth_seq, mode, nd, anc=()):
+    """A Grid is an ordered container: the Array first, then the maps IN THE ORDER THE GRID HOLDS THEM.  Nothing
+    in pydap's model ties that order (or the maps' names) to the array's dimensions, so the generator does not
+    either: maps in dimension order, reversed, shuffled; maps that are no dimension of the array (before / between /
+    after those that are); dimensions without a map; repeated and anonymous dimension names; maps whose own
+    dimension is named differently; 0-d and 2-d maps; rank 0..4 arrays."""
+    name = gen_name(rng, used, anc=anc)
+    inner = set()
+    dnames, ext, axes = plan_grid(rng, lambda: gen_name(rng, inner, anc=anc + (name,)), inner)
+
     def lead(nodata):          # record axes of a grid inside sequences, present only in data
         return () if nodata else tuple(gen_extent(rng) for _ in range(depth_seq))
 
     na = pick_nodata(rng, nd)
-    arr = ("b", gen_name(rng, inner), rng.choice(list(SPEC_TYPES)), lead(na) + ext, tuple(dnames), na)
+    arr = ("b", gen_name(rng, inner, anc=anc + (name,)), rng.choice(list(SPEC_TYPES)), lead(na) + ext, tuple(dnames), na)
     maps = []
-    for dn, e in zip(dnames, ext):
+    for dn, e in axes:
         nm = pick_nodata(rng, nd)
-        maps.append(("b", dn, rng.choice(list(SPEC_TYPES)), lead(nm) + (e,), (dn,) if rng.random() < 0.7 else (), nm))
+        r = rng.random()
+        if r < 0.85:
+            r2 = rng.random()
+            mshape, mdims = (e,), ((dn,) if r2 < 0.6 and DIM_RE_OK(dn) else () if r2 < 0.85 else (gen_dim(rng),))
+        elif r < 0.95:                               # two-dimensional map (curvilinear coordinates)
+            mshape = (e, gen_extent(rng))
+            mdims = (gen_dim(rng), gen_dim(rng)) if rng.random() < 0.6 else ()
+        else:
+            mshape, mdims = (), ()
+        maps.append(("b", dn, rng.choice(list(SPEC_TYPES)), lead(nm) + mshape, mdims, nm))
     return ("g", name, [arr] + maps)
 
 
-def gen_kids(rng, depth, depth_seq, mode, maxkids, nd):
+def grid_features(spec, depth_seq=0, out=None):
+    """measured distribution of the Grids of a tree (features, not cases)"""
+    out = set() if out is None else out
+    if spec[0] == "g":
+        arr, maps = spec[2][0], spec[2][1:]
+        dims = list(arr[4])
+        pos = [dims.index(m[1]) if m[1] in dims else len(dims) for m in maps]
+        out.add("grid")
+        if not maps:
+            out.add("grid:no-maps")
+        if not dims:
+            out.add("grid:anonymous-dims")
+        if len(set(dims)) < len(dims):
+            out.add("grid:repeated-dims")
+        if pos != sorted(pos):
+            out.add("grid:maps-not-in-dimension-order")
+        if any(p == len(dims) and any(q < p for q in pos[i + 1:]) for i, p in enumerate(pos)):
+            out.add("grid:non-dimension-map-before-dimension-map")
+        if dims and any(p == len(dims) for p in pos):
+            out.add("grid:map-not-a-dimension")
+        if any(d not in [m[1] for m in maps] for d in dims):
+            out.add("grid:dimension-without-map")
+        if any(len(m[4]) == 1 and m[4][0] != m[1] for m in maps):
+            out.add("grid:map-dimension-named-differently")
+        if any(declared_rank(m, depth_seq) != 1 for m in maps):
+            out.add("grid:map-rank-not-1")
+        if any(e == 0 for b in spec[2] for e in b[3]):
+            out.add("grid:zero-extent")
+    elif spec[0] != "b":
+        for k in spec[2]:
+            grid_features(k, depth_seq + (1 if spec[0] == "sq" else 0), out)
+    return out
+
+
+def tree_features(spec, anc=(), out=None):
+    out = set() if out is None else out
+    low = spec[1].lower()
+    if low.rstrip(":") in ("dataset", "structure", "sequence", "grid", "array", "maps", "int32", "byte", "float64",
+                           "string", "url", "int", "uint", "attributes"):
+        out.add("name:keyword")
+    if spec[1] in anc:
+        out.add("name:same-as-ancestor")
+    if spec[0] == "b":
+        if any(d.lower() in ("maps", "array", "grid", "int32", "dataset", "structure") for d in spec[4]):
+            out.add("dimension:keyword")
+        if 0 in spec[3]:
+            out.add("zero-extent")
+    else:
+        if not spec[2]:
+            out.add("empty:" + spec[0])
+        for k in spec[2]:
+            tree_features(k, anc + (spec[1],), out)
+    return out
+
+
+def gen_kids(rng, depth, depth_seq, mode, maxkids, nd, anc=()):
     used = set()
     kids = []
-    for _ in range(rng.randint(0 if depth > 1 and rng.random() < 0.1 else 1, maxkids)):
+    for _ in range(rng.randint(0 if rng.random() < (0.1 if depth > 1 else 0.02) else 1, maxkids)):
         r = rng.random()
         if depth >= 4 or r < 0.5:
-            kids.append(gen_base(rng, used, depth_seq, mode, nd))
-        elif r < 0.65:
-            kids.append(gen_grid(rng, used, depth_seq, mode, nd))
-        elif r < 0.85:
-            kids.append(("st", gen_name(rng, used), gen_kids(rng, depth + 1, depth_seq, mode, max(1, maxkids - 1),
-                                                               nd)))
+            kids.append(gen_base(rng, used, depth_seq, mode, nd, anc))
+        elif r < 0.68:
+            kids.append(gen_grid(rng, used, depth_seq, mode, nd, anc))
+        elif r < 0.86:
+            n = gen_name(rng, used, anc=anc)
+            kids.append(("st", n, gen_kids(rng, depth + 1, depth_seq, mode, max(1, maxkids - 1), nd, anc + (n,))))
         else:
-            kids.append(("sq", gen_name(rng, used), gen_kids(rng, depth + 1, depth_seq + 1, mode,
-                                                               max(1, maxkids - 1), nd)))
+            n = gen_name(rng, used, anc=anc)
+            kids.append(("sq", n, gen_kids(rng, depth + 1, depth_seq + 1, mode, max(1, maxkids - 1), nd, anc + (n,))))
     return kids
 
 
 def gen_dataset(rng, mode):
     r = rng.random()
     nd = "all" if r < 0.25 else "mixed" if r < 0.40 else "held"
-    return ("ds", gen_name(rng, set()), gen_kids(rng, 1, 0, mode, rng.choice([1, 2, 3, 5]), nd))
+    n = gen_name(rng, set())
+    return ("ds", n, gen_kids(rng, 1, 0, mode, rng.choice([1, 2, 3, 5]), nd, (n,)))
 
 
 def build(P, spec):
@@ -318,28 +440,50 @@ def ws(rng, must=False):
 
 def gen_foreign(rng, depth=1, in_grid=False):
     """returns (declared view, token list) for one declaration"""
-    used = set()
+    used = set()          # names of the container being generated (siblings are distinct; scopes nest)
+    anc = []              # names already used in the enclosing scopes (may be reused inside)
 
-    def name():
+    def name(members=()):
+        """members: the views of the container being named (a container may be named like one of its members)"""
         for _ in range(30):
-            s = rng.choice("abcxyzABCXYZ_") + "".join(rng.choice(IDENT + "%-~") for _ in range(rng.randint(0, 5)))
+            r = rng.random()
+            if members and r < 0.10:
+                s = rng.choice(members)[1]
+            elif anc and r < 0.08:
+                s = rng.choice(anc)
+            elif r < 0.16:
+                s = rng.choice([k for k in KEYWORDS if ":" not in k])
+            else:
+                s = rng.choice("abcxyzABCXYZ_") + "".join(rng.choice(IDENT + "%-~") for _ in range(rng.randint(0, 5)))
             if s not in used and not s.startswith("dap4"):
                 used.add(s)
                 return s
         raise RuntimeError
 
-    def base():
+    class scope(object):
+        """a fresh sibling scope; names of the enclosing scopes may be reused inside"""
+        def __enter__(self):
+            self.save = set(used)
+            anc.extend(sorted(used))
+            used.clear()
+
+        def __exit__(self, *a):
+            del anc[len(anc) - len(self.save):]
+            used.clear()
+            used.update(self.save)
+
+    def base(n=None, dimspec=None):
+        """dimspec: [(dimension name or None, extent)] (default: random)"""
         t = rng.choice(list(FOREIGN_TYPES))
-        n = name()
-        rank = rng.choice([0, 1, 1, 2, 3])
+        n = name() if n is None else n
+        if dimspec is None:
+            named = rng.random() < 0.5
+            dimspec = [(gen_dim(rng) if named else None, gen_extent(rng)) for _ in range(rng.choice([0, 1, 1, 2, 3]))]
         shape, dims, toks = [], [], [("kw", t), ("ws1",), ("name", n)]
-        named = rng.random() < 0.5
-        for _ in range(rank):
-            e = gen_extent(rng)
+        for d, e in dimspec:
             shape.append(e)
             toks.append(("p", "["))
-            if named:
-                d = gen_dim(rng)
+            if d is not None:
                 dims.append(d)
                 toks += [("t", d), ("p", "="), ("t", str(e))]
             else:
@@ -348,22 +492,38 @@ def gen_foreign(rng, depth=1, in_grid=False):
         toks.append(("p;",))
         return ("b", n, FOREIGN_TYPES[t], tuple(shape), tuple(dims)), toks
 
+    def grid():
+        """maps in any declared order, named after the array's dimensions or not (see plan_grid)"""
+        with scope():
+            dnames, ext, axes = plan_grid(rng, name, used)
+            arr, t0 = base(dimspec=[(dnames[i] if dnames else None, ext[i]) for i in range(len(ext))])
+            maps = []
+            for a, e in axes:
+                r = rng.random()
+                maps.append(base(a, [(a if r < 0.5 else None if r < 0.8 else gen_dim(rng), e)] if r < 0.95 else None))
+        return arr, t0, maps
+
     def decl(depth):
         r = rng.random()
         if depth >= 4 or r < 0.55:
             return base()
         if r < 0.7:
-            arr, t0 = base()
-            maps = [base() for _ in range(rng.randint(0, 3))]
-            n = name()
+            if rng.random() < 0.7:
+                arr, t0, maps = grid()
+            else:
+                with scope():
+                    arr, t0 = base()
+                    maps = [base() for _ in range(rng.randint(0, 3))]
+            n = name([arr] + [m for m, _ in maps])
             toks = [("kw", "Grid"), ("p", "{"), ("kw", "Array"), ("p", ":")] + t0 + [("kw", "Maps"), ("p", ":")]
             for _, t in maps:
                 toks += t
             toks += [("p", "}"), ("name", n), ("p;",)]
             return ("g", n, [arr] + [m for m, _ in maps]), toks
         kw, tag = rng.choice([("Structure", "st"), ("Sequence", "sq")])
-        kids = [decl(depth + 1) for _ in range(rng.randint(0, 3))]
-        n = name()
+        with scope():
+            kids = [decl(depth + 1) for _ in range(rng.randint(0, 3))]
+        n = name([k for k, _ in kids])
         toks = [("kw", kw), ("p", "{")]
         for _, t in kids:
             toks += t
@@ -371,7 +531,9 @@ def gen_foreign(rng, depth=1, in_grid=False):
         return (tag, n, [k for k, _ in kids]), toks
 
     kids = [decl(1) for _ in range(rng.randint(0, 4))]
-    n = name()
+    anc.extend(sorted(used))
+    used.clear()
+    n = name([k for k, _ in kids])
     toks = [("kw", "Dataset"), ("p", "{")]
     for _, t in kids:
         toks += t
@@ -400,6 +562,101 @@ def render_foreign(rng, toks):
 
 
 # ---------------------------------------------------------------------------------------------------
+# the reference rendering of a declared structure: what a DAP2 server writes (libdap layout: four blanks per level,
+# `Array:` / `Maps:` one level in, members and maps in declared order, `[name = n]` for a named dimension).  The
+# harness's own printer: independent of pydap's printer, of its tables and of the Lean model.
+OWN_DAP2 = {">f8": "Float64", ">f4": "Float32", ">i2": "Int16", ">u2": "UInt16", ">i4": "Int32", ">u4": "UInt32",
+            "|u1": "Byte", "|S128": "String"}
+
+
+def implicit_dims(view):
+    """a one-dimensional array declared without a dimension name has its own name as dimension name"""
+    if view[0] == "b":
+        dims = tuple(view[4])
+        if not dims and len(view[3]) == 1:
+            dims = (view[1],)
+        return ("b", view[1], view[2], tuple(view[3]), dims)
+    return (view[0], view[1], [implicit_dims(k) for k in view[2]])
+
+
+def partially_named(view):
+    """some array declares names for some of its dimensions only (`Int32 a[x = 2][3]`): pydap's BaseType keeps the
+    names it saw (`dims = ('x',)`), which no longer says which axis they name; parsed as declared, but outside what
+    the print side of the property quantifies over ("with or without named dimensions"): printing is not judged"""
+    if view[0] == "b":
+        return 0 < len(view[4]) < len(view[3])
+    return any(partially_named(k) for k in view[2])
+
+
+def reference_text(view, level=0):
+    ind = "    " * level
+    if view[0] == "b":
+        _, name, dt, shape, dims = view
+        if dims:
+            assert len(dims) == len(shape)
+            sh = "".join("[%s = %d]" % (d, e) for d, e in zip(dims, shape))
+        else:
+            sh = "".join("[%d]" % e for e in shape)
+        return "%s%s %s%s;\n" % (ind, OWN_DAP2[dt], name, sh)
+    if view[0] == "g":
+        return (ind + "Grid {\n" + ind + "    Array:\n" + reference_text(view[2][0], level + 2) + ind + "    Maps:\n"
+                + "".join(reference_text(m, level + 2) for m in view[2][1:]) + ind + "} " + view[1] + ";\n")
+    kw = {"ds": "Dataset", "st": "Structure", "sq": "Sequence"}[view[0]]
+    return ind + kw + " {\n" + "".join(reference_text(k, level + 1) for k in view[2]) + ind + "} " + view[1] + ";\n"
+
+
+def judge_foreign(P, text, view):
+    """a foreign-style DDS `text` declaring `view`: [(what, observed, expected)] of everything that is wrong.
+    (1) it parses to what it declares; (2) pydap's DDS of the parsed dataset is the reference rendering of what was
+    declared — members and MAPS in declared order, names, types, extents, dimension names; (3) that reference text
+    parses to the same structure and (4) is reproduced exactly when printed again."""
+    bad = []
+    d, dump = impl_parse(P, text)
+    if d is None:
+        return [("foreign-style DDS does not parse", dump, repr(view))], None, dump
+    got = norm_dt(parsed_view(P, d))
+    if got != norm_dt(view):
+        bad.append(("foreign-style DDS parses to a different structure than it declares", repr(got),
+                    repr(norm_dt(view))))
+    if partially_named(view):
+        return bad, d, dump
+    exp = implicit_dims(view)
+    ref = reference_text(exp)
+    try:
+        text2 = "".join(P["dds"](d))
+    except Exception as e:
+        text2 = "raised " + type(e).__name__
+    if text2 != ref:
+        bad.append(("the DDS of a dataset parsed from a foreign-style DDS is not the reference rendering of what was "
+                    "declared (order of members and maps, names, types, extents, dimension names)", text2, ref))
+    d3, dump3 = impl_parse(P, ref)
+    if d3 is None:
+        bad.append(("reference DDS does not parse", dump3, ref))
+    else:
+        got3 = norm_dt(parsed_view(P, d3))
+        if got3 != norm_dt(exp):
+            bad.append(("reference DDS parses to a different structure than it declares", repr(got3), repr(norm_dt(exp))))
+        try:
+            text4 = "".join(P["dds"](d3))
+        except Exception as e:
+            text4 = "raised " + type(e).__name__
+        if text4 != ref:
+            bad.append(("print(parse(T)) != T for a reference DDS T", text4, ref))
+    return bad, d, dump
+
+
+def foreign_features(view, out=None):
+    out = set() if out is None else out
+    if view[0] == "g":
+        spec = ("g", view[1], [("b", b[1], "d", b[3], b[4], True) for b in view[2]])
+        out |= set("foreign-" + f for f in grid_features(spec))
+    elif view[0] != "b":
+        for k in view[2]:
+            foreign_features(k, out)
+    return out
+
+
+# ---------------------------------------------------------------------------------------------------
 # decorated foreign trees for the Lean foreign-style printer (`ftextDs`, the printer of theorem C07_foreign)
 WS_CHARS = [" ", "\n", "\t", "\r", "\x0b", "\x0c", "\x1c", "\x1d", "\x1e", "\x1f"]
 LOWER_TYPES = {"float64": ">f8", "float32": ">f4", "int16": ">i2", "uint16": ">u2", "int32": ">i4", "uint32": ">u4",
@@ -425,49 +682,66 @@ def gs_sexp(gs):
 
 def gen_fds(rng):
     """returns (sexp for the driver, declared view) of a decorated foreign dataset"""
-    def name(used):
+    def name(used, prefer=()):
+        """prefer: names of the members / of enclosing scopes (legal, unconventional)"""
         for _ in range(30):
-            s = "".join(rng.choice(IDENT + DIM_EXTRA) for _ in range(rng.randint(1, 5)))
+            r = rng.random()
+            if prefer and r < 0.10:
+                s = rng.choice(prefer)
+            elif r < 0.18:
+                s = rng.choice([k for k in KEYWORDS if ":" not in k])
+            else:
+                s = "".join(rng.choice(IDENT + DIM_EXTRA) for _ in range(rng.randint(1, 5)))
             if s not in used and "dap4" not in s.lower():
                 used.add(s)
                 return s
         raise RuntimeError
 
-    def fbase(used):
+    def fbase(used, n=None, dims=None, anc=()):
         t = rng.choice(list(LOWER_TYPES))
-        n = name(used)
-        dims = []
-        for _ in range(rng.choice([0, 1, 1, 2, 3])):
-            dims.append((gen_dim(rng) if rng.random() < 0.5 else None, gen_extent(rng)))
+        n = name(used, anc) if n is None else n
+        if dims is None:
+            dims = []
+            for _ in range(rng.choice([0, 1, 1, 2, 3])):
+                dims.append((gen_dim(rng) if rng.random() < 0.5 else None, gen_extent(rng)))
         sx = "(fb %s %s (%s) %s)" % (tx(rnd_case(rng, t)), tx(n),
                                      " ".join("(%s %d)" % ("none" if d is None else tx(d), e) for d, e in dims),
                                      gs_sexp(gen_gaps(rng, 7)))
         return sx, ("b", n, LOWER_TYPES[t], tuple(e for _, e in dims), tuple(d for d, _ in dims if d is not None))
 
-    def decl(depth, used):
+    def decl(depth, used, anc=()):
         r = rng.random()
         if depth >= 4 or r < 0.5:
-            return fbase(used)
+            return fbase(used, anc=anc)
         if r < 0.65:
             inner = set()
-            arr, va = fbase(inner)
-            maps = [fbase(inner) for _ in range(rng.randint(0, 3))]
-            n = name(used)
+            if rng.random() < 0.7:        # maps in any declared order, named after the array's dimensions or not
+                dnames, ext, axes = plan_grid(rng, lambda: name(inner, anc), inner)
+                arr, va = fbase(inner, dims=[(dnames[i] if dnames else None, ext[i]) for i in range(len(ext))], anc=anc)
+                maps = []
+                for a, e in axes:
+                    r2 = rng.random()
+                    maps.append(fbase(inner, a, [(a if r2 < 0.5 else None if r2 < 0.8 else gen_dim(rng), e)]
+                                      if r2 < 0.95 else None))
+            else:
+                arr, va = fbase(inner, anc=anc)
+                maps = [fbase(inner, anc=anc) for _ in range(rng.randint(0, 3))]
+            n = name(used, [va[1]] + [v[1] for _, v in maps])
             sx = "(fg %s %s %s %s %s %s (%s))" % (tx(rnd_case(rng, "grid")), tx(rnd_case(rng, "array")),
                                                  tx(rnd_case(rng, "maps")), tx(n), gs_sexp(gen_gaps(rng, 8)), arr,
                                                  " ".join(m for m, _ in maps))
             return sx, ("g", n, [va] + [v for _, v in maps])
         is_seq = rng.random() < 0.4
         inner = set()
-        kids = [decl(depth + 1, inner) for _ in range(rng.randint(0, 3))]
-        n = name(used)
+        kids = [decl(depth + 1, inner, anc + tuple(sorted(used))) for _ in range(rng.randint(0, 3))]
+        n = name(used, [v[1] for _, v in kids])
         sx = "(fc %d %s %s %s (%s))" % (1 if is_seq else 0, tx(rnd_case(rng, "sequence" if is_seq else "structure")),
                                         tx(n), gs_sexp(gen_gaps(rng, 4)), " ".join(k for k, _ in kids))
         return sx, ("sq" if is_seq else "st", n, [v for _, v in kids])
 
     used = set()
     kids = [decl(1, used) for _ in range(rng.randint(0, 4))]
-    n = name(set())
+    n = name(set(), [v[1] for _, v in kids])
     sx = "(fds %s %s %s (%s))" % (tx(rnd_case(rng, "dataset")), tx(n), gs_sexp(gen_gaps(rng, 4)),
                                   " ".join(k for k, _ in kids))
     return sx, ("ds", n, [v for _, v in kids])
@@ -480,18 +754,16 @@ def check_lean_foreign(ctx, P, rng, n, cases):
     texts = common.run_driver(["dds-fprint " + sx for sx, _ in specs])
     for (sx, view), hx in zip(specs, texts):
         text = bytes.fromhex(hx[1:]).decode("latin-1")
-        d, dump = impl_parse(P, text)
+        case = {"kind": "foreign", "text": text, "declared": view}
+        bad, d, dump = judge_foreign(P, text, view)
         cases.append(("dds-fdecl " + sx, dump, {"text": text}))
         cases.append(("dds-parse " + hexb(text.encode("latin-1")), dump, {"text": text}))
-        case = {"kind": "foreign", "text": text, "declared": view}
         ctx.count(("lean-foreign", text), True, tag="foreign:lean-printer", sample={"foreign(lean)": text[:200]})
-        if d is None:
-            ctx.oracle_fail("foreign-style DDS does not parse", case, dump, repr(view), size=len(text))
-            continue
-        got = norm_dt(parsed_view(P, d))
-        if got != norm_dt(view):
-            ctx.oracle_fail("foreign-style DDS parses to a different structure than it declares", case, repr(got),
-                            repr(norm_dt(view)), size=len(text))
+        for f in sorted(foreign_features(view) | ({"foreign-partially-named-dimensions(print not judged)"}
+                                                  if partially_named(view) else set())):
+            ctx.tags["feature:" + f] += 1
+        for what, obs, exp in bad:
+            ctx.oracle_fail(what, case, obs, exp, size=len(text))
 
 
 def mutate(rng, text):
@@ -563,6 +835,8 @@ def check_tree(ctx, P, spec, cases, where, live=None):
     ctx.count(("tree", src), True, tag=where + (":domain" if dom else ":odd")
               + ("+array-in-sequence" if in_seq_array_class(spec) else "") + ("+nodata" if has_nodata(spec) else ""),
               sample={"spec": repr(spec)[:300], "text": text[:300]})
+    for f in sorted(grid_features(spec) | tree_features(spec)):
+        ctx.tags["feature:" + f] += 1
     if d2 is None:
         ctx.oracle_fail("printed DDS does not parse", case, dump2, "a dataset", size=len(text))
         return
@@ -584,18 +858,19 @@ def check_tree(ctx, P, spec, cases, where, live=None):
 def check_foreign(ctx, P, rng, cases):
     view, toks = gen_foreign(rng)
     text = render_foreign(rng, toks)
-    d, dump = impl_parse(P, text)
-    cases.append(("dds-parse " + hexb(text.encode()), dump, {"text": text}))
     case = {"kind": "foreign", "text": text, "declared": view}
+    bad, d, dump = judge_foreign(P, text, view)
+    cases.append(("dds-parse " + hexb(text.encode()), dump, {"text": text}))
+    if not partially_named(view):
+        ref = reference_text(implicit_dims(view))
+        cases.append(("dds-parse " + hexb(ref.encode()), impl_parse(P, ref)[1], {"text": ref}))
     ctx.count(("foreign", text), True, tag="foreign", sample={"foreign": text[:300]})
-    if d is None:
-        ctx.oracle_fail("foreign-style DDS does not parse", case, dump, repr(view), size=len(text))
-        return
-    got = norm_dt(parsed_view(P, d))
-    if got != norm_dt(view):
-        ctx.oracle_fail("foreign-style DDS parses to a different structure than it declares", case, repr(got),
-                        repr(norm_dt(view)), size=len(text))
-    return text
+    for f in sorted(foreign_features(view) | ({"foreign-partially-named-dimensions(print not judged)"}
+                                              if partially_named(view) else set())):
+        ctx.tags["feature:" + f] += 1
+    for what, obs, exp in bad:
+        ctx.oracle_fail(what, case, obs, exp, size=len(text))
+    return text if d is not None else None
 
 
 def explore(ctx, tier, search=False):
@@ -711,7 +986,13 @@ def run(ctx):
                 "(dims/shape length mismatch), fixed regression trees incl. a Sequence holding a real numpy "
                 "structured array, "
                 "foreign-style texts from the harness's own printer (Url/Int/UInt, anonymous dimensions, random "
-                "keyword case, random inter-token whitespace) and a malformed stream (mutated texts); every case "
+                "keyword case, random inter-token whitespace) and a malformed stream (mutated texts); Grids (trees, "
+                "foreign texts, input of the Lean foreign printer) hold their maps in dimension order (25%), reversed "
+                "(15%) or shuffled (60%), with maps that are no dimension of the array inserted anywhere (30%, half of "
+                "them first), a dimension without a map (15%), repeated (15%) or anonymous (15%) dimension names, "
+                "maps named differently from the dimensions (10%), 0-d/2-d maps, no maps; names are also grammar "
+                "words (Grid, Maps, Array:, Int32, dataset ...), names of enclosing containers, of members; empty "
+                "containers at any depth (feature:* tags = measured distribution); every case "
                 "counts as non-trivial; distinct by canonical tree / text")
     ctx.assumptions = ["DDS text is ASCII (DDSResponse encodes with 'ascii'); the model's character classes are the "
                        "ASCII restrictions of \\w, \\d, str.lstrip and re.IGNORECASE",
@@ -773,11 +1054,7 @@ def replay(payload):
             return ("b", x[1], x[2], tuple(x[3]), tuple(x[4]))
         return (x[0], x[1], [tupv(k) for k in x[2]])
 
-    try:
-        d = P["dds_to_dataset"](text)
-    except Exception as e:
-        print("foreign text does not parse:", type(e).__name__, e)
-        return False
-    got, exp = norm_dt(parsed_view(P, d)), norm_dt(tupv(c["declared"]))
-    print("observed", got, "\nexpected", exp)
-    return got == exp
+    bad, _, _ = judge_foreign(P, text, tupv(c["declared"]))
+    for what, obs, exp in bad:
+        print("%s\n observed %s\n expected %s" % (what, obs, exp))
+    return not bad
